@@ -4,8 +4,8 @@
     FinishRound re-seeds the device generator) is model-checked over every schedule of <= N tasks x <= 3 workers x 2
     consecutive executions, FIFO and arbitrary dispatch: OrderPreserved, Reproducible (every returned list is a function
     of (seed, batch) alone: no schedule, no worker count), SeedsBeforeDispatch, RngOK, ExactlyOnce, WorkerBound, Progress.
-    The wrong variants "shared-rng", "draw-at-dispatch" and "collect-as-completed" must each violate an invariant
-    (model-level negative controls).
+    The wrong variants "shared-rng", "draw-at-dispatch" and "collect-as-completed" must each violate one of the two
+    property-level invariants OrderPreserved / Reproducible (model-level negative controls).
 (R) spec -> code: the completion orders TLC enumerates for the batch size / worker counts used are forced onto real
     default.qubit executions (qp.device("default.qubit", seed, max_workers) + ExecutionConfig(executor_backend)) under the
     serial path (max_workers=None), multiprocessing pool, concurrent.futures process pool and thread pool: a hook around
@@ -50,7 +50,8 @@ def tlc_models(tier, n, wcounts):
     }
     for bug, fifo in BUGS.items():
         jobs["bug:" + bug] = (lambda bug=bug, fifo=fifo: lib.run_tlc("Executor", lib.cfg(constants=model_consts(
-            [3], [2], fifo, bug=bug, device=True, rounds=2, seeds="{5}"), invariants=INVS), lib.workdir("C31", "bug_" + bug), timeout=600))
+            [3], [2], fifo, bug=bug, device=True, rounds=2, seeds="{5}"), invariants=["OrderPreserved", "Reproducible"]),
+            lib.workdir("C31", "bug_" + bug), timeout=600))
     with cf.ThreadPoolExecutor(6) as tp:
         futs = {k: tp.submit(f) for k, f in jobs.items()}
         res = {k: f.result() for k, f in futs.items()}
@@ -59,7 +60,7 @@ def tlc_models(tier, n, wcounts):
     rejected = {}
     for bug in BUGS:
         r = res["bug:" + bug]
-        if r.invariant_violated not in ("OrderPreserved", "Reproducible", "SeedsBeforeDispatch"):
+        if r.invariant_violated not in ("OrderPreserved", "Reproducible"):
             raise MachineryError(f"model-level negative control: variant {bug} not rejected ({r.invariant_violated}, {r.error})")
         rejected[bug] = r.invariant_violated
     return res, rejected
@@ -72,7 +73,7 @@ def start_drivers(names):
         wd = lib.workdir("C31", f"drv_{name}")
         procs[name] = (subprocess.Popen([PY, "-W", "ignore", "-m", "harness.c31_driver", str(wd / "job.json"), str(wd / "out.jsonl")],
                                         cwd=str(lib.VERIF), stdout=subprocess.DEVNULL, stderr=subprocess.PIPE, text=True,
-                                        start_new_session=True, env=dict(os.environ, VERIF_C31_DIR=str(wd), OMP_NUM_THREADS="1")), wd)
+                                        start_new_session=True, env=dict(os.environ, VERIF_C31_DIR=str(wd), OMP_NUM_THREADS="1", VERIF_TURNSTILE_WAIT="150")), wd)
     return procs
 
 
